@@ -5,3 +5,7 @@ t = subprocess.check_output(['python3', '/verif/tools/seeded_table.py', 'CDEFGH'
 p = '/verif/DESIGN.md'; s = open(p).read()
 s = re.sub(r'<!-- SEEDED-TABLE-BEGIN -->.*?<!-- SEEDED-TABLE-END -->', '<!-- SEEDED-TABLE-BEGIN -->\n' + t + '<!-- SEEDED-TABLE-END -->', s, flags=re.S)
 open(p, 'w').write(s)
+t2 = subprocess.check_output(['python3', '/verif/tools/seeded_table.py', 'IJKL']).decode()
+s = open(p).read()
+s = re.sub(r'<!-- SEEDED-TABLE2-BEGIN -->.*?<!-- SEEDED-TABLE2-END -->', '<!-- SEEDED-TABLE2-BEGIN -->\n' + t2 + '<!-- SEEDED-TABLE2-END -->', s, flags=re.S)
+open(p, 'w').write(s)
